@@ -4,7 +4,7 @@
     (Exchange/Perms.v, Exchange/GovGuards.v) disagrees with the implementation; "prop:" = the
     implementation's own outcome breaks the documented rule. *)
 From Coq Require Import NArith List String Bool.
-From PV Require Export Exchange.Perms Exchange.GovGuards Exchange.GuardPaths Exchange.PermWorld Corr.CorrBase.
+From PV Require Export Exchange.Perms Exchange.GovGuards Exchange.GuardPaths Exchange.PermWorld Exchange.PermCommit Corr.CorrBase.
 From PV Require Import Gen.GenExchangePerms Gen.GenGovEndpoints Gen.GenHandlerPaths.
 Import ListNotations.
 Open Scope string_scope.
@@ -22,7 +22,18 @@ Record manage_step := { ms_admin : N; ms_req : upd_req; ms_ok : bool; ms_after :
     which are run on the history's own context, NOT on a branch). *)
 Record world_step := { ws_op : wop; ws_valid : bool; ws_ok : bool; ws_after : list grant; ws_wrote : bool }.
 
+(** One step of a commitment-settings history (Exchange/PermCommit.v): the request, whether it went
+    through, the market's settings read back afterwards (from the request's own branch), and whether
+    a rejected request changed the digest of all stores. *)
+Record commit_obs := { co_op : cop; co_ok : bool; co_after : mconf; co_wrote : bool }.
+
 Inductive case :=
+| CCommit (auth : N) (st : store) (market : N) (c0 : mconf) (steps : list commit_obs)
+| CNestedTrigger (module request inner_kind : string) (depth : N) (control : bool) (created target_changed : bool)
+    (* a stranger's trigger whose action is a create-trigger request (nested [depth] deep) naming a
+       FOREIGN account as authority of the innermost trigger, which carries that account's message;
+       the chain is then run through the blocks needed; target_changed = a store other than the
+       trigger module's differs from before.  control = the innermost authority is the stranger itself *)
 | CWorld (auth : N) (w0 : world) (universe : list grant) (steps : list world_step)
 | CQuery (module endpoint : string) (ran wrote stranger_accepted : bool)
     (* a Query method run on a context whose writes persist: digest of all stores before/after, and
@@ -191,6 +202,46 @@ Fixpoint check_world (i : N) (auth : N) (universe : list grant) (w : world) (ste
       end
   end.
 
+(* ------------------------------------------------------------------ commitment settings histories *)
+
+Definition mconf_eqb (a b : mconf) : bool :=
+  Bool.eqb (mc_accepting a) (mc_accepting b) && Bool.eqb (mc_bips a) (mc_bips b)
+  && Bool.eqb (mc_cfee a) (mc_cfee b) && Bool.eqb (mc_denom a) (mc_denom b).
+
+Definition check_commit_step (auth : N) (st : store) (m : N) (c : mconf) (s : commit_obs) : list string :=
+  let '(c', ok) := commit_step auth st m c (co_op s) in
+  tag (Bool.eqb ok (co_ok s)) "corr:commit_step_outcome" ++
+  tag (mconf_eqb c' (co_after s)) "corr:market_settings_after" ++
+  (if co_ok s then
+     match co_op s with
+     | CoAccepting caller new_allow =>
+         tag (N.eqb caller auth || store_has st m caller PUpdate) "prop:passed_without_documented_permission" ++
+         (* documented: to START accepting commitments the market needs settlement bips or a creation fee;
+            without them the switch is the governance authority's *)
+         tag (N.eqb caller auth || negb new_allow || mc_bips c || mc_cfee c)
+             "prop:commitments_enabled_without_commitment_fees_by_non_authority"
+     | CoDenom caller _ =>
+         tag (N.eqb caller auth || store_has st m caller PUpdate) "prop:passed_without_documented_permission"
+     | CoFees caller _ _ _ _ => tag (N.eqb caller auth) "prop:non_authority_accepted_on_governance_endpoint"
+     end
+   else
+     tag (mconf_eqb c (co_after s)) "prop:rejected_request_changed_market_settings" ++
+     (* only a request stopped before any write is looked at (the runtime drops the branch anyway) *)
+     match co_op s with
+     | CoFees _ _ _ _ _ => tag (negb (co_wrote s)) "prop:rejected_call_wrote_state"
+     | _ => []
+     end).
+
+Fixpoint check_commit (i : N) (auth : N) (st : store) (m : N) (c : mconf) (steps : list commit_obs) : list string :=
+  match steps with
+  | [] => []
+  | s :: r =>
+      match check_commit_step auth st m c s with
+      | [] => check_commit (N.succ i) auth st m (fst (commit_step auth st m c (co_op s))) r
+      | e => map (fun t => (t ++ " @step " ++ N_to_string i)%string) e
+      end
+  end.
+
 Definition known_query_row (module endpoint : string) : bool :=
   existsb (fun r => (qh_module r =? module) && (qh_endpoint r =? endpoint)) gen_query_handlers.
 
@@ -214,6 +265,11 @@ Definition row_rejects_all (module request : string) : bool :=
 
 Definition check (c : case) : list string :=
   match c with
+  | CCommit auth st m c0 steps => check_commit 0 auth st m c0 steps
+  | CNestedTrigger module request inner_kind depth control created target_changed =>
+      if control then tag (created && target_changed) "corr:nested_trigger_control_did_not_run"
+      else tag (negb created) "prop:nested_trigger_naming_foreign_authority_accepted" ++
+           tag (negb target_changed) "prop:state_changed_by_foreign_message_through_nested_trigger"
   | CWorld auth w0 universe steps => check_world 0 auth universe w0 steps
   | CQuery module endpoint ran wrote stranger_accepted =>
       (if existsb (fun r => qh_module r =? module) gen_query_handlers
